@@ -17,7 +17,13 @@ RULE = ("cases = (estimator class, hyper-parameters, data set, match-tracking mo
         "plus histories trained through fit_gif (the training loop that draws a frame after every sample) with a vetoing reset "
         "function, every match-tracking mode and a non-zero epsilon, judged by the same per-step oracles; "
         "plus np.longdouble histories (Hypersphere / Ellipsoid / Gaussian / QuadraticNeuron, alone, as FusionART channels or as "
-        "SimpleARTMAP A-side) with near-tie samples found by bisection on category_choice, judged at full precision")
+        "SimpleARTMAP A-side) with near-tie samples found by bisection on category_choice, judged at full precision; "
+        "plus drawn histories: every elementary class on 2 features (half of them BayesianART with a cov_init that is asymmetric / "
+        "symmetric only up to round-off / symmetric), drawn after every partial_fit batch (visualize with default and too few "
+        "colours and the estimator's own labels_, plot_cluster_bounds) or trained through fit_gif with a small palette, every "
+        "mode, vetoing reset functions; judged per sample by the rule on the estimator's public kernels, by 'the weights a search "
+        "starts from are those the previous search left' and against the same history without drawing; plus the shared "
+        "plotting-call scenarios (plotpure) continued by a partial_fit judged the same way")
 
 
 GEN_THEOREMS = ["base_match_tracking", "dual_match_tracking", "topo_match_tracking", "cviart_match_tracking",
@@ -135,10 +141,11 @@ def _ld_split(X):
     return hi, lo
 
 
-def _ld_rule(m, x, op, mode, eps, veto):
+def _ld_rule(m, x, op, mode, eps, veto, inv=False):
     """C01's rule evaluated with the estimator's public kernels at the precision they return: candidates in order of
     decreasing activation (oldest first among equals), the first one that passes the vigilance test and is not vetoed
-    wins; a vetoed vigilance-passing candidate moves the threshold as the mode prescribes for the rest of this search.
+    wins; a vetoed vigilance-passing candidate moves the threshold as the mode prescribes for the rest of this search
+    (`inv`: the estimator's vigilance test is `rho >= match`, BayesianART, so "raise the bar" means a LOWER threshold).
     Returns (winner or None = new category, activations, test results of the visited categories)"""
     W = list(m.W)
     params = m.params if veto is None else dict(m.params)
@@ -168,7 +175,8 @@ def _ld_rule(m, x, op, mode, eps, veto):
             if mode == "MT1":
                 return None, T, passed
             M = m.match_criterion(x, W[c], params=params, cache=C[c])[0]
-            params["rho"] = M + eps if mode == "MT+" else (M - eps if mode == "MT-" else M)
+            e_ = -eps if inv else eps
+            params["rho"] = M + e_ if mode == "MT+" else (M - e_ if mode == "MT-" else M)
     return None, T, passed
 
 
@@ -416,8 +424,341 @@ def _has_matplotlib():
         return False
 
 
+# ---------------------------------------------------------------------------------------------------------------
+# drawn histories.  Drawing a model (visualize / plot_cluster_bounds between two training calls, the frame fit_gif draws
+# after every sample) presents no sample, so by the statement no category can win and no weight may change: the weights a
+# sample's search starts from are the ones the previous sample's search left, a category opened from a sample is still
+# `new_weight(sample)` until it wins, and every search is the one the rule prescribes on those weights.  A drawing call
+# that raises is tolerated (the property does not say a model can be drawn) and has to leave the weights alone as well.
+
+class _Watch:
+    """wraps `step_fit` of the module that runs the generic search.  Per presented sample: the weights before (copies), the
+    rule's answer from the module's own public kernels on that state, the label returned, the weights after.
+    `marks` = what the caller did between searches, as (number of searches completed so far, description)"""
+
+    def __init__(self, m, rule=True):
+        self.m, self.rule, self.recs, self.marks = m, rule, [], []
+        self.inv = specs.is_inverted(type(m).__name__)
+        self.orig = m.step_fit
+        object.__setattr__(m, "step_fit", self.step)
+
+    def mark(self, what):
+        self.marks.append((len(self.recs), what))
+
+    def between(self, k):
+        return [w for (p, w) in self.marks if p == k or p is None]
+
+    def step(self, x, match_reset_func=None, match_tracking="MT+", epsilon=0.0):
+        import operator
+        from copy import deepcopy
+        m = self.m
+        W0 = list(getattr(m, "W", []))
+        rec = {"x": np.array(x, copy=True), "want": "?", "veto": None, "before": deepcopy(W0), "mode": match_tracking,
+               "eps": epsilon, "T": [], "passed": {}}
+        self.recs.append(rec)
+        if self.rule:
+            op = operator.gt if match_tracking in ("MT0", "MT~") else operator.ge
+            try:
+                with np.errstate(all="ignore"):
+                    if match_reset_func is not None:
+                        rec["veto"] = [not match_reset_func(x, w, c_, params=m.params, cache=None) for c_, w in enumerate(W0)]
+                    if W0:
+                        rec["want"], rec["T"], rec["passed"] = _ld_rule(m, x, op, match_tracking, epsilon, rec["veto"], inv=self.inv)
+                    else:
+                        rec["want"] = None
+            except Exception as e:   # the kernels raised: the training call below reports it
+                rec["want"] = "?"
+                rec["kernel-exc"] = repr(e)
+        c = self.orig(x, match_reset_func=match_reset_func, match_tracking=match_tracking, epsilon=epsilon)
+        rec["got"] = int(c)
+        rec["after"] = deepcopy(list(m.W))
+        return c
+
+
+def _same_w(a, b):
+    a, b = np.asarray(a), np.asarray(b)
+    return a.shape == b.shape and np.array_equal(a, b, equal_nan=True)
+
+
+def _judge_watched(ctx, tagc, w, replay, hit):
+    """the statement on a watched history: (1) the search of every sample starts from the weights the previous search
+    left (a weight changes only when its category wins a sample), also for the weights found at the end; (2) the label is the
+    rule's; (3) only the winner's weight changes / exactly one category, `new_weight(sample)`, is appended.
+    Returns True when nothing was reported"""
+    recs, m = w.recs, w.m
+    done = [rc for rc in recs if "got" in rc]
+    nontrivial = False
+    states = [(si, rc["before"], f"at the start of the search of sample {si}") for si, rc in enumerate(recs) if si > 0]
+    if done and len(done) == len(recs):
+        states.append((len(recs), list(m.W), "at the end of the history"))
+    for si, W1, when in states:
+        prev = recs[si - 1]
+        if "after" not in prev:
+            break
+        W0 = prev["after"]
+        moved = [k for k in range(min(len(W0), len(W1))) if not _same_w(W0[k], W1[k])]
+        if len(W0) != len(W1) or moved:
+            k = moved[0] if moved else None
+            fresh = k is not None and prev["got"] == k and k == len(prev["before"])
+            ctx.issue("violation", f"{tagc}:weight-changed-without-winning",
+                      f"{when} there are {len(W1)} categories and the weight(s) of {moved} differ from what the search of sample "
+                      f"{si - 1} (label {prev['got']}) left ({len(W0)} categories), although no sample was presented in between"
+                      f" (in between: {w.between(si) or 'nothing'})"
+                      + (f"; category {k}: {np.asarray(W0[k]).tolist()} -> {np.asarray(W1[k]).tolist()}" if k is not None else "")
+                      + ("; that category had just been opened from sample %d and is no longer new_weight(sample)" % (si - 1)
+                         if fresh else ""), replay(si - 1))
+            return False
+        hit("oracle:weights-at-the-next-search-are-those-the-previous-search-left")
+    for si, rc in enumerate(done):
+        before, after, got, want = rc["before"], rc["after"], rc["got"], rc["want"]
+        nb = len(before)
+        if want == "?":
+            hit("rule-not-evaluable:" + ("kernel-raised" if "kernel-exc" in rc else "not-asked"))
+        else:
+            exp = nb if want is None else want
+            if len(rc["passed"]) >= 2 or (rc["veto"] and any(rc["veto"])):
+                nontrivial = True
+            if rc["veto"] and rc["mode"] != "MT~" and any(ok and rc["veto"][k] for k, ok in rc["passed"].items()):
+                hit(f"veto-then-track:{rc['mode']}")
+            if got != exp:
+                ctx.issue("violation", f"{tagc}:not-best-vigilance-passing-category",
+                          f"step {si}: sample assigned to {got} of {nb} categories; the estimator's own category_choice / "
+                          f"match_criterion_bin values on the weights of that moment give "
+                          f"{'a new category' if want is None else want} as the unvetoed vigilance-passing category of highest "
+                          f"activation (activations {[float(t) for t in rc['T']]}, vigilance tests {rc['passed']}, vetoed "
+                          f"{rc['veto']}, mode {rc['mode']}, eps {rc['eps']}; before this search: {w.between(si) or 'nothing'})",
+                          replay(si))
+                return False
+            hit("oracle:winner-from-public-kernels")
+        changed = [k for k in range(min(nb, len(after))) if not _same_w(before[k], after[k])]
+        if got > nb or len(after) != nb + (1 if got == nb else 0) or any(k != got for k in changed):
+            ctx.issue("violation", f"{tagc}:frame", f"step {si}: label {got}, |W| {nb}->{len(after)}, weights changed {changed}",
+                      replay(si))
+            return False
+        if got == nb:
+            try:
+                with quiet():
+                    wn = m.new_weight(rc["x"], m.params)
+            except Exception:
+                wn = None
+            if wn is not None and not _same_w(wn, after[-1]):
+                ctx.issue("violation", f"{tagc}:new-not-from-sample",
+                          f"step {si}: appended weight {np.asarray(after[-1]).tolist()} differs from new_weight(x) "
+                          f"{np.asarray(wn).tolist()}", replay(si))
+                return False
+    w.nontrivial = nontrivial
+    return True
+
+
+def _bayes_cov(r, flavour):
+    """2x2 cov_init accepted by validation (any ndarray), positive definite symmetric part, positive determinant:
+    'asymmetric' (off-diagonal entries differ), 'round-off' (R diag R^T evaluated in floating point: symmetric up to the
+    last bits), 'symmetric'"""
+    import math
+    s = r.choice([2.0 ** -8, 2.0 ** -7, 2.0 ** -6, 2.0 ** -5])
+    a, c = s * r.choice([1.0, 1.5, 2.0]), s * r.choice([1.0, 0.75])
+    b = s * r.choice([0.0, 0.25, -0.5])
+    if flavour == "asymmetric":
+        e = s * r.choice([0.125, 0.25, -0.375])
+        return [[a, b + e], [b - e, c]]
+    if flavour == "round-off":
+        for _ in range(20):
+            th = r.uniform(0.1, 1.4)
+            R = np.array([[math.cos(th), -math.sin(th)], [math.sin(th), math.cos(th)]])
+            C = R @ np.diag([s * r.uniform(1.0, 3.0), s * r.uniform(0.3, 1.0)]) @ R.T
+            if C[0, 1] != C[1, 0]:
+                return C.tolist()
+        C[0, 1] = np.nextafter(C[0, 1], np.inf)
+        return C.tolist()
+    return [[a, b], [b, c]]
+
+
+DRAW_ROUTES = ["visualize-between-partial_fit", "fit_gif", "plot_cluster_bounds-between-partial_fit",
+               "visualize:own-labels:short-colours-between-partial_fit"]
+BAYES_COV = ["asymmetric", "round-off", "asymmetric", "round-off", "symmetric"]
+
+
+def drawn_histories(ctx):
+    """histories in which the model is drawn while training is still going on: every elementary class (2 features), half
+    of them BayesianART with a cov_init that is not symmetric / symmetric only up to round-off; drawn after every
+    partial_fit batch (visualize with default or too few colours and the estimator's own labels_, plot_cluster_bounds on
+    the caller's axes) or trained through fit_gif; every match-tracking mode, vetoing reset functions.  Oracle:
+    `_judge_watched`, plus the assignments and weights of the same history without the drawing calls (the rule makes every
+    search a function of the weights, the sample and the vetoes)"""
+    cov = ctx.cov
+    if not _has_matplotlib():
+        cov.hit("drawn:matplotlib-not-available")
+        return
+    import os
+    import tempfile
+    import matplotlib
+    matplotlib.use("Agg")
+    import matplotlib.pyplot as plt
+    from matplotlib.pyplot import cm
+    Nd = ctx.scale(30, 300)
+    others = [c for c in specs.ELEM if c != "BayesianART"]
+    rcp = {"figure.figsize": (0.8, 0.6), "xtick.bottom": False, "xtick.labelbottom": False, "ytick.left": False,
+           "ytick.labelleft": False}
+    for i in range(Nd):
+        r = gen.rng_for(ctx.seed, "C01-drawn", i)
+        j = ctx.seed * Nd + i
+        bayes = j % 2 == 0
+        cls = "BayesianART" if bayes else others[(j // 2) % len(others)]
+        route = DRAW_ROUTES[(j // 2) % len(DRAW_ROUTES)]
+        mode = MODES[(j // 2) % 5] if r.random() < 0.6 else "MT+"
+        eps = r.choice([0.0, 2.0 ** -20, 2.0 ** -10])
+        n = r.randint(5, 9)
+        flavour = None
+        if bayes:
+            flavour = BAYES_COV[(j // 2) % len(BAYES_COV)]
+            C0 = _bayes_cov(r, flavour)
+            spec = {"cls": cls, "rho": float(np.linalg.det(np.array(C0)) * r.choice([0.125, 0.25, 0.3, 0.45, 0.7])), "cov_init": C0}
+            cen = [[r.uniform(0.15, 0.85), r.uniform(0.15, 0.85)] for _ in range(r.randint(2, 3))]
+            X = np.clip(np.array([[v + r.gauss(0.0, 0.07) for v in r.choice(cen)] for _ in range(n)]), 0.0, 1.0)
+        else:
+            spec = build_est(r, cls, 2)[0]
+            X = specs.elem_data(r, cls, n, 2, floats=r.random() < 0.5 and cls != "ART1")
+        has_reset = r.random() < 0.5
+        vt = gen.veto_table(r, n, n + 1) if has_reset else None
+        cuts = sorted(r.sample(range(1, n), r.randint(1, 3)))    # 2-4 batches, a drawing call after each
+        parts = [n] if route == "fit_gif" else [b_ - a_ for a_, b_ in zip([0] + cuts, cuts + [n])]
+        tagc = f"{cls}:drawn-history"
+        try:
+            m, twin = make(spec), make(spec)
+        except Exception as e:
+            ctx.issue("violation", f"{cls}.__init__:{exc_enum(e)}", f"constructor raised {e!r}", {"spec": spec})
+            continue
+        w, w2 = _Watch(m), _Watch(twin, rule=False)
+
+        def mk_reset(watch):
+            return None if vt is None else (lambda i_, w_, c_, params=None, cache=None: not vt[len(watch.recs) - 1][c_])
+
+        def replay(step=None):
+            return {"spec": spec, "cov_init": flavour, "X": X, "mode": mode, "eps": eps, "veto": vt, "parts": parts,
+                    "route": route, "drawn": [what if p is None else f"after {p} samples: {what}" for p, what in w.marks], "step": step,
+                    "how": "partial_fit batch by batch (reset function = veto table), the drawing call after every batch"
+                    if route != "fit_gif" else "fit_gif(X, match_reset_func=<veto table>, match_tracking=mode, epsilon=eps, "
+                    "filename=<temporary file>, n_cluster_estimate=2), matplotlib Agg backend"}
+        failed = None
+        with plt.rc_context(rcp), tempfile.TemporaryDirectory() as tmp:
+            had = set(plt.get_fignums())
+            try:
+                if route == "fit_gif":
+                    w.marks.append((None, "the frame fit_gif draws after every sample"))
+                    try:
+                        with quiet():
+                            # a palette smaller than the number of categories: the newest categories are then not drawn
+                            m.fit_gif(X, match_reset_func=mk_reset(w), match_tracking=mode, epsilon=eps,
+                                      filename=os.path.join(tmp, "c01.gif"), n_cluster_estimate=r.choice([2, n]), fps=50)
+                        cov.hit(f"drawn:fit_gif:completed:{cls}")
+                    except Exception as e:
+                        if w.recs and "got" in w.recs[-1]:
+                            w.mark(f"fit_gif: drawing the frame raised {exc_enum(e)}")
+                            cov.hit(f"drawn:fit_gif:frame-raised-after-a-completed-search:{cls}:{exc_enum(e)}")
+                        else:
+                            failed = e
+                else:
+                    a0 = 0
+                    for sz in parts:
+                        try:
+                            with quiet():
+                                m.partial_fit(X[a0:a0 + sz], match_reset_func=mk_reset(w), match_tracking=mode, epsilon=eps)
+                        except Exception as e:
+                            failed = e
+                            break
+                        a0 += sz
+                        what = route.split("-between")[0]
+                        try:
+                            with quiet():
+                                fig, ax = plt.subplots()
+                                ncat = len(m.W)
+                                if what == "visualize":
+                                    m.visualize(X[:a0], np.array(m.labels_), ax)
+                                elif what == "plot_cluster_bounds":
+                                    m.plot_cluster_bounds(ax, cm.rainbow(np.linspace(0, 1, ncat + 3)))
+                                else:
+                                    m.visualize(X[:a0], m.labels_, ax, colors=cm.rainbow(np.linspace(0, 1, max(1, ncat - 1))))
+                            w.mark(what)
+                            cov.hit(f"drawn:{what}:drawn:{cls}")
+                        except Exception as e:
+                            w.mark(f"{what} raised {exc_enum(e)}")
+                            cov.hit(f"drawn:{what}:raised:{cls}:{exc_enum(e)}")
+            finally:
+                for num in set(plt.get_fignums()) - had:
+                    plt.close(num)
+        if failed is not None:
+            ctx.issue("violation", f"{cls}.{'fit_gif' if route == 'fit_gif' else 'partial_fit'}:drawn-history:{exc_enum(failed)}",
+                      f"training raised {failed!r} on validated data (mode {mode}, reset={has_reset}, drawn so far {w.marks})",
+                      replay(len(w.recs) - 1))
+            cov.case(("drawn", cls, repr(spec), X.tolist(), mode, eps, repr(vt), route), False)
+            continue
+        cov.hit(f"drawn:history:{route}:{cls}" + (f":cov_init-{flavour}" if flavour else ""))
+        _judge_watched(ctx, tagc, w, replay, lambda s_: cov.hit("drawn:" + s_))
+        k = len([rc for rc in w.recs if "got" in rc])
+        if k:
+            # the same samples, batches, vetoes and mode without any drawing call
+            try:
+                with quiet():
+                    if route == "fit_gif":
+                        twin.fit(X[:k], match_reset_func=mk_reset(w2), match_tracking=mode, epsilon=eps)
+                    else:
+                        for B in gen.split(X, parts):
+                            twin.partial_fit(B, match_reset_func=mk_reset(w2), match_tracking=mode, epsilon=eps)
+                got, ref = [rc["got"] for rc in w.recs[:k]], [rc["got"] for rc in w2.recs[:k]]
+                if got != ref or len(m.W) != len(twin.W) or any(not _same_w(a, b) for a, b in zip(m.W, twin.W)):
+                    ctx.issue("violation", f"{tagc}:searches-differ-from-the-history-without-drawing",
+                              f"assignments {got} / {len(m.W)} categories; the same samples, batches, vetoes and mode without the "
+                              f"drawing calls give {ref} / {len(twin.W)} categories"
+                              + ("" if got != ref or len(m.W) != len(twin.W) else " with different weights"), replay(None))
+                cov.hit("drawn:oracle:same-searches-as-without-drawing")
+            except Exception as e:
+                cov.hit(f"drawn:twin-raised:{cls}:{exc_enum(e)}")
+        cov.case(("drawn", cls, repr(spec), X.tolist(), mode, eps, repr(vt), route), bool(getattr(w, "nontrivial", False)))
+
+
+def plotted_then_trained(ctx):
+    """the shared generator of plotting calls inside histories (harness/artv/plotpure.py): for the estimators of C01's
+    quantifier (elementary classes, the A-side of SimpleARTMAP / ARTMAP) the plotting call must not have changed a weight
+    of the searching module, and the partial_fit that follows is judged sample by sample with `_judge_watched`"""
+    from .. import plotpure
+    cov = ctx.cov
+    for sc in plotpure.scenarios(ctx, "C01", quick=12, thorough=120):
+        if sc.kind in specs.ELEM:
+            m, prefix = sc.est, ""
+        elif sc.kind in ("SimpleARTMAP", "ARTMAP"):
+            m, prefix = sc.est.module_a, ".module_a"
+        else:
+            continue
+        tagc = f"{sc.kind}:after-{sc.plot.split(':')[0]}" if prefix == "" else f"{sc.kind}.module_a:after-{sc.plot.split(':')[0]}"
+        desc = dict(sc.desc, trained_by=sc.trained_by, plotting_call_raised=sc.raised)
+        moved = [p for p in sc.changed if p.startswith(prefix + ".W")]
+        if moved:
+            ctx.issue("violation", f"{tagc}:weight-changed-without-winning",
+                      f"{sc.plot} after {sc.trained_by} changed {moved[:6]} although no sample was presented", desc)
+            continue
+        cov.hit("plotpure:weights-of-the-searching-module-unchanged-by-the-plotting-call")
+        if sc.raised is not None and sc.plot.startswith("fit_gif"):
+            cov.hit("plotpure:fit_gif-stopped-in-a-frame")
+            continue
+        k = min(len(sc.rows), 3)
+        w = _Watch(m)
+        w.mark(f"{sc.plot} (before the first watched search)")
+        try:
+            sc.fam.pfit(sc.est, sc.rows.sl(0, k))
+        except Exception as e:
+            cov.hit(f"plotpure:continuation-raised:{sc.kind}:{exc_enum(e)}")
+            continue
+        _judge_watched(ctx, tagc, w, lambda step=None: dict(desc, then_partial_fit_rows=k, step=step),
+                       lambda s_: cov.hit("plotpure:" + s_))
+        cov.hit(f"plotpure:continued:{sc.kind}:{sc.plot}")
+        cov.case(("plotpure", sc.kind, repr(sc.fam.spec), repr(sc.desc["rows"]), sc.plot, sc.trained_by),
+                 bool(getattr(w, "nontrivial", False)))
+
+
 def run(ctx):
     longdouble_histories(ctx)
+    drawn_histories(ctx)
+    plotted_then_trained(ctx)
     cov = ctx.cov
     N = ctx.scale(900, 9000)
     nmax = ctx.scale(24, 120)
@@ -698,6 +1039,22 @@ def run(ctx):
                                           {"spec": spec, "X": X, "step": si, **rep_re})
                         except Exception:
                             pass
+        # ---- oracle: a weight changes only when its category wins a sample: the weights a search starts from are the ones
+        #      the previous search of this history left (whatever happened between them: a new batch, a re-assignment of
+        #      hyper-parameters, the frame fit_gif draws)
+        for si in range(1, len(frames)):
+            W0, W1 = frames[si - 1][1], frames[si][0]
+            moved = [k for k in range(min(len(W0), len(W1))) if not np.array_equal(W0[k], W1[k], equal_nan=True)]
+            if len(W0) != len(W1) or moved:
+                ctx.issue("violation", f"{tagc}:weight-changed-without-winning",
+                          f"at the start of the search of sample {si} there are {len(W1)} categories and the weights of {moved} "
+                          f"differ from what the search of sample {si - 1} (label {frames[si - 1][2]}) left ({len(W0)} categories); "
+                          f"no sample was presented in between",
+                          {"spec": spec, "X": X, "step": si - 1, "mode": mode, "eps": eps, "veto": vt if has_reset else None,
+                           "parts": parts, **rep_re})
+                break
+        else:
+            cov.hit("oracle:weights-at-the-next-search-are-those-the-previous-search-left")
         # ---- oracle: without a reset function the winner is the oldest category of maximal activation among
         #      those passing the vigilance test; recomputed from public kernel calls on the weights before the step
         if not has_reset and cls not in ("GaussianART", "BayesianART", "FusionART"):
